@@ -113,10 +113,11 @@ class LibRaised(Exception):
 
 
 def lib(fn, *args, **kwargs):
-    """Call library code.  Returns (value, None) or (None, LibRaised)."""
+    """Call library code.  Returns (value, None) or (None, LibRaised).  SystemExit is an outcome too (the command-line tool leaves
+    through argparse's parser.exit / parser.error)."""
     try:
         return fn(*args, **kwargs), None
-    except (KeyboardInterrupt, SystemExit):
+    except KeyboardInterrupt:
         raise
     except HarnessError:
         raise
